@@ -4,6 +4,7 @@ use vstd::prelude::*;
 //@@EXTRACT macro_predicate@@
 verus! {
 //@@SPEC vocab.rs@@
+//@@SPEC std_saturating.rs@@
 //@@SPEC contracts/integer_variable_consumer.rs@@
 //@@SPEC prop_ctx.rs@@
 //@@SPEC prop_ctx_stateful.rs@@
